@@ -218,11 +218,21 @@ def run(ctx):
             ms = [r for r, b in R.bind.items() if b == 'm']
             if not ms:
                 continue
-            norm = [bool(R.normalised.get(r)) for r in ms]
-            ok = all(norm) if multi else not any(norm)
-            ctx.ob("C01.nodata", name, ok, "%d measure reads; %s" % (len(ms), "all through max(v, NO_DATA)" if multi and ok else
-                                                                    ("stored raw" if ok else "normalisation flags %s" % norm)),
-                   site=ctx.site_of(F, fr["def"]), key="C01.nodata|%s" % name)
+            norms = [R.normalised.get(r) or False for r in ms]
+            tables = [fcmp.normaliser_table(F, util, nm) if nm else None for nm in norms]
+            if multi:
+                ok = all(tb is not None and fcmp.normaliser_ok(tb) for tb in tables)
+                msg = "%d measure reads, normalised by %s: %s" % (len(ms), sorted(set(str(nm) for nm in norms)),
+                                                                   [tb for tb in tables][:1])
+            else:
+                ok = not any(norms)
+                msg = "stored raw" if ok else "single-point measure passed through %s" % norms
+            ctx.ob("C01.nodata", name, ok, msg, site=ctx.site_of(F, fr["def"]), key="C01.nodata|%s" % name)
+            # coordinates and stored boxes are never transformed
+            touched = [(b, R.normalised.get(r)) for r, b in R.bind.items() if b != 'm' and R.normalised.get(r)]
+            ctx.ob("C01.slot", "%s values stored as read" % name, not touched,
+                   "transformed on the way in: %s" % touched if touched else "X, Y, Z and every box value are stored exactly as read",
+                   site=ctx.site_of(F, fr["def"]), key="C01.slot|raw|%s" % name)
     ax = {rel: fcmp.f64max_axiom('v', 'NO_DATA', rel) for rel in fcmp.RELS}
     ctx.ob("C01.nodata", "max(v, NO_DATA) over the four orderings", ax == {'<': 'c', '=': 'either', '>': 'x', 'unordered': 'c'},
            "v < NO_DATA -> NO_DATA, v = NO_DATA -> NO_DATA, v > NO_DATA -> v, NaN -> NO_DATA (f64::max returns the non-NaN operand)",
